@@ -3,6 +3,7 @@
 package control
 
 import (
+	"encoding/json"
 	"strings"
 	"bytes"
 	"fmt"
@@ -509,6 +510,7 @@ func TestVerifTaskPoolRandomWalk(t *testing.T) {
 		var sched []tpAction
 		dead := false
 		sharedReported := false
+		chanOrd := map[chan UdpTask]int{}
 		var last *vActor
 		directed := 0
 		if wi%3 == 0 {
@@ -638,7 +640,23 @@ func TestVerifTaskPoolRandomWalk(t *testing.T) {
 				}
 				acceptOrder[keys[a.name]] = append(acceptOrder[keys[a.name]], tpTask{P: a.name, N: n + 1, Key: keys[a.name]})
 			}
-			trace = append(trace, map[string]any{"actor": a.name, "from": from, "to": to})
+			ev := map[string]any{"who": a.name, "kind": "p", "n": 0, "from": from, "to": to, "ch": 0}
+			if strings.HasPrefix(a.name, "convoy#") {
+				ev["kind"] = "c"
+				fmt.Sscanf(a.name, "convoy#%d", new(int))
+				var n int
+				fmt.Sscanf(a.name, "convoy#%d", &n)
+				ev["n"] = n
+			}
+			if to == "acquire.store" {
+				if nq, ok := a.arg.(*UdpTaskQueue); ok && nq != nil {
+					if _, seen := chanOrd[nq.ch]; !seen {
+						chanOrd[nq.ch] = len(chanOrd) + 1
+					}
+					ev["ch"] = chanOrd[nq.ch]
+				}
+			}
+			trace = append(trace, ev)
 			sched = append(sched, tpAction{A: from + ">" + to, P: a.name})
 		}
 		w.quiesce(total)
@@ -653,6 +671,17 @@ func TestVerifTaskPoolRandomWalk(t *testing.T) {
 		}
 		w.pool.Close()
 	}
-	_ = traceOut
-	_ = traces
+	if traceOut != "" {
+		f, err := os.Create(traceOut)
+		if err == nil {
+			enc := json.NewEncoder(f)
+			for _, tr := range traces {
+				for _, ev := range tr {
+					_ = enc.Encode(ev)
+				}
+				_ = enc.Encode(map[string]any{"who": "reset", "kind": "reset", "n": 0, "from": "", "to": "", "ch": 0})
+			}
+			_ = f.Close()
+		}
+	}
 }
